@@ -4,7 +4,8 @@ Lean kernel re-check `Jp.C20.all_subsets_build`; (2) correspondence: `cargo chec
 --no-default-features --features <S>` on the working tree for ALL 2^n subsets of the declared features (256 on the pinned tree), compared with the
 model's verdict per subset; (3) second half: the core operations (parse, token escaping, tokenisation,
 slicing, prefix/suffix) through a harness built with all default features off (no_std + alloc) and
-through the default build, on the same lines, both compared with the Lean model.
+through the default build, on the same lines; a difference between the two builds is the violation
+(the model's answer is recorded with it; agreement of both with the model is decided by C02…C16).
 """
 import os, sys, json, time, subprocess, concurrent.futures, shutil
 
@@ -27,6 +28,8 @@ CORE_FIELDS = {
     "rel": ["sw", "ew", "sp", "ss", "ix", "ixr", "cc"],
     "with": ["text"], "concat": ["text"], "index_str": ["r", "disp"],
 }
+
+MODEL_ONLY = [0]
 
 def sh(cmd, cwd=None, timeout=None, env=None):
     p = subprocess.run(cmd, cwd=cwd, env=env or ENV, stdout=subprocess.PIPE, stderr=subprocess.STDOUT, text=True, timeout=timeout)
@@ -105,8 +108,15 @@ def core_half(tier, seed, log):
         if "bad_op" in fc or "bad_op" in ff or "bad_op" in fm:
             continue          # a malformed line is a defect of the generator, never a violation
         for k in CORE_FIELDS[op]:
-            if not (fc.get(k) == ff.get(k) == fm.get(k)):
+            if fc.get(k) != ff.get(k):
+                # C20 states that the core behaves the SAME without std: a difference between the two builds of
+                # the real crate is the violation
                 probs.append((l, k, fc.get(k), ff.get(k), fm.get(k)))
+            elif fc.get(k) != fm.get(k):
+                # both builds agree with each other but not with the model: the tie of these operations to the
+                # model is the business of C02/C03/C04/C12/C13/C16 (which compare up to what their statements
+                # leave open), not of C20
+                MODEL_ONLY[0] += 1
     return len(lines), probs, None
 
 def run(tier, seed, replay, proof_phase, write_replay, log):
@@ -156,8 +166,9 @@ def run(tier, seed, replay, proof_phase, write_replay, log):
             log("C20: " + undecided + " — undecided"); return 2
     for pr in probs[:3]:
         n += 1
-        path = write_replay(prop, seed, 10 + n, dict(property=prop, kind="core behaviour differs between configurations / model",
-            line=pr[0], field=pr[1], no_default_features=pr[2], default=pr[3], model=pr[4]))
+        path = write_replay(prop, seed, 10 + n, dict(property=prop, kind="core behaviour differs between the no-default-features build and the default build",
+            line=pr[0], field=pr[1], no_default_features=pr[2], default=pr[3], model=pr[4],
+            replay_cmd=f"printf '%s\\n' '{pr[0]}' | /verif/harness-core/target/checked/jpcore ; printf '%s\\n' '{pr[0]}' | /verif/harness/target/checked/jpserve"))
         violations.append((path, ""))
     std_behavioural = [x for x in T.get("stdgated", []) if x[2]]
     if not violations and (model_bad or proof["failures"]):
@@ -188,7 +199,7 @@ def run(tier, seed, replay, proof_phase, write_replay, log):
                 std_gated_regions=len(T.get("stdgated", [])), std_gated_behavioural=[list(x) for x in std_behavioural],
                 cargo_failing_subsets=len(cargo_bad), model_failing_subsets=len(model_bad),
                 model_vs_cargo_disagreements=disagreements[:20],
-                core_lines=nlines, core_disagreements=len(probs), proof_failures=proof["failures"],
+                core_lines=nlines, core_disagreements=len(probs), core_fields_differing_from_model_only=MODEL_ONLY[0], proof_failures=proof["failures"],
                 partial="rustc's name resolution is abstracted; the sweep over the finite configuration space closes the gap"),
             assumptions=["cfg atoms other than features (test, doc, docsrs) are false in a library build"],
             wall_s=round(wall, 2), violations=len(violations))
